@@ -63,7 +63,7 @@ WellFormed(c) ==
     /\ c.w >= 0 /\ c.depth >= 0 /\ Pow2(c.aw) >= c.depth /\ (c.aw = 0 \/ Pow2(c.aw - 1) < c.depth)
     /\ Len(c.init) <= c.depth /\ \A a \in 1..Len(c.init) : DeclOK(c, c.init[a])
     /\ \A j \in 1..Len(c.wp) : /\ c.wp[j].dom \in {"A", "B"}
-                               /\ c.wp[j].gbits >= 1 /\ c.wp[j].gbits * c.wp[j].ng = c.w
+                               /\ c.wp[j].gbits >= 1 /\ (c.wp[j].gbits * c.wp[j].ng = c.w \/ c.w = 0)
     /\ \A k \in 1..Len(c.rp) : /\ c.rp[k].dom \in {"comb", "A", "B"}
                                /\ \A t \in 1..Len(c.rp[k].transp) :
                                      /\ c.rp[k].transp[t] \in 1..Len(c.wp)
